@@ -38,8 +38,8 @@ class Engine:
 
     def configs(self, tier, prop):
         if tier == "quick":
-            return [("control", 600), ("single_faults", 260), ("fault_pairs", 140), ("casadi_faults", 24)]
-        return [("control", 30_000), ("single_faults", 12_000), ("fault_pairs", 8_000), ("casadi_faults", 1_500)]
+            return [("control", 600), ("single_faults", 260), ("fault_pairs", 140), ("casadi_faults", 24), ("sequence", 120)]
+        return [("control", 30_000), ("single_faults", 12_000), ("fault_pairs", 8_000), ("casadi_faults", 1_500), ("sequence", 6_000)]
 
     def chunk_size(self, config, tier):
         return 20
@@ -64,6 +64,23 @@ class Engine:
 
     # -- plans -----------------------------------------------------------------------------------
     def gen_plan(self, rng, config, tier, prop):
+        if config == "sequence":
+            # several invocations by ONE process (main() is importable and is called like that by tools and tests): what
+            # an invocation returns must not depend on the ones before it
+            seq = []
+            for k in range(rng.choice([2, 2, 3])):
+                sub = self.gen_plan(rng, "control", tier, prop)
+                if rng.random() < 0.5:
+                    sub["target"] = "casadi"
+                    sub["paths"] = [rng.choice(["lib", "lib", "lib/sub", "lib/A.mo"])]
+                    sub["models"] = [rng.choice(["A", "B", "D", "Bad"]) for _ in range(rng.choice([1, 1, 2]))]
+                    sub["outdir"] = "out"
+                    sub["opts"] = [rng.choice(["eliminable_variable_expression=(", "detect_aliases=true", "library_folders=nodir",
+                                               "replace_parameter_values=true", "expand_vectors=true", "a=1"])
+                                   for _ in range(rng.choice([0, 0, 1, 1, 2]))]
+                seq.append(sub)
+            return {"seq": seq, "paths": [], "models": [], "opts": [], "target": None, "outdir": "out", "faults": None,
+                    "pair_seed": 0}
         target = rng.choice([None, None, "sympy", "sympy", "casadi"]) if config == "control" else rng.choice([None, "sympy", "sympy"])
         if config == "casadi_faults":
             target = "casadi"
@@ -95,6 +112,18 @@ class Engine:
                 "verbose": rng.choice([0, 0, 0, 1, 2]), "faults": None, "pair_seed": rng.randrange(1 << 30)}
 
     def shrink_candidates(self, plan):
+        if plan.get("seq"):
+            for cand in ddmin_list(plan["seq"]):
+                if cand:
+                    p = copy.deepcopy(plan)
+                    p["seq"] = copy.deepcopy(cand)
+                    yield p
+            for i, sub in enumerate(plan["seq"]):
+                for sp in self.shrink_candidates(sub):
+                    p = copy.deepcopy(plan)
+                    p["seq"][i] = sp
+                    yield p
+            return
         for key in ("models", "paths", "opts"):
             if len(plan[key]) > (1 if key == "paths" else 0):
                 for cand in ddmin_list(plan[key]):
@@ -360,6 +389,27 @@ class Engine:
         distinct = set()
         viol = None
         config = plan.get("config", "control")
+        if plan.get("seq"):
+            steps = 0
+            for pos, sub in enumerate(plan["seq"]):
+                sb = self.make_sandbox()
+                st, fs = self.invoke(sub, sb, None)
+                steps += len(fs.trace)
+                log.add(0, 0, "invocation", "%d: %s -> %r" % (pos, self.show(sub), st))
+                counts["invocations"] = counts.get("invocations", 0) + 1
+                distinct.add(canon.digest(("seq", pos, tuple(sub["paths"]), tuple(sub["models"]), sub["target"],
+                                           tuple(sub["opts"]), sub["outdir"])))
+                viol = self.judge(sub, sb, st, [], ["sequence", "first" if pos == 0 else "later"])
+                if viol:
+                    viol = (viol[0], viol[1], viol[2], "invocation %d of %d by one process: %s" % (pos + 1, len(plan["seq"]), viol[3]))
+                    break
+            res = {"property": plan.get("property", "C26"), "verdict": "ok", "plan": plan, "counts": counts,
+                   "digest": log.digest(), "sim_time_s": 0.0, "steps": steps, "distinct": {"invocation_fault": sorted(distinct)}}
+            if viol:
+                res["verdict"] = "violation"
+                res["kind"], res["site"], res["shape"], res["detail"] = viol
+                res["log_tail"] = log.tail(30)
+            return res
         sb = self.make_sandbox()
         st, fs = self.invoke(plan, sb, None)
         log.add(0, 0, "control", "%s -> %r" % (self.show(plan), st))
